@@ -186,20 +186,72 @@ def showCallable (c : Callable) : String :=
 def showProgram (p : Program) : String :=
   join (p.callables.map showCallable ++ [match p.top with | some c => "@ " ++ showCall c | none => "-"])
 
+/-- one operation; `some none` = operation not modelled -/
+def applyOne (p : Program) : List String → Option (Option Program)
+  | [eop, callable, param, new, calls, tops] =>
+    let tops := if tops == "." then [] else tops.splitOn ","
+    match eop with
+    | "renameCallable" => some (some (renameCallable callable new p))
+    | "renameInput" => some (some (renameInput callable param new p))
+    | "renameOutput" => some (some (renameOutput callable param new p))
+    | "removeInput" => some (some (removeInput callable param p))
+    | "removeUnused" => some (some (removeUnused (calls == "1") tops p))
+    | "removeOutput" => some none
+    | _ => none
+  | _ => none
+
+/-- Several operations of ONE Refactor call.  Renames are applied to the compiled
+AST as they are made; the edits of a removeInput step are applied to it only when
+the remove-unused loop is requested as well (refactor.go), so without the loop a
+later removal step still analyses the program as it was after the renames
+(`ref`), while the edits of all steps accumulate in the result (`cur`). -/
+def applySeqAux (loop : Bool) (ref cur : Program) : List String → Option (Option Program)
+  | [] => some (some cur)
+  | eop :: callable :: param :: new :: calls :: tops :: rest =>
+    if eop == "removeInput" then
+      match ref.find? callable with
+      | none => applySeqAux loop ref cur rest
+      | some _ =>
+        let pairs := removeInputClosure ref (closureFuel ref) [(callable, param)] []
+        let cur' := removeInputs pairs cur
+        applySeqAux loop (if loop then removeInputs pairs ref else ref) cur' rest
+    else
+      match applyOne cur [eop, callable, param, new, calls, tops] with
+      | some (some cur') =>
+        if eop == "removeUnused" then applySeqAux loop cur' cur' rest
+        else
+          match applyOne ref [eop, callable, param, new, calls, tops] with
+          | some (some ref') => applySeqAux loop ref' cur' rest
+          | r => r
+      | r => r
+  | _ => none
+termination_by l => l.length
+
+def stepsHaveLoop : List String → Bool
+  | eop :: _ :: _ :: _ :: calls :: tops :: rest =>
+    (eop == "removeUnused" && (calls == "1" || tops != ".")) || stepsHaveLoop rest
+  | _ => false
+termination_by l => l.length
+
+def applySeq (p : Program) (steps : List String) : Option (Option Program) :=
+  applySeqAux (stepsHaveLoop steps) p p steps
+
 def handle (op : String) (args : List String) : Option String :=
   match op, args with
   | "ping", _ => some "pong"
   | "apply", [prog, eop, callable, param, new, calls, tops] => do
     let p ← pProgram (prog.splitOn " ") []
-    let tops := if tops == "." then [] else tops.splitOn ","
-    match eop with
-    | "renameCallable" => some (showProgram (renameCallable callable new p))
-    | "renameInput" => some (showProgram (renameInput callable param new p))
-    | "renameOutput" => some (showProgram (renameOutput callable param new p))
-    | "removeInput" => some (showProgram (removeInput callable param p))
-    | "removeUnused" => some (showProgram (removeUnused (calls == "1") tops p))
-    | "removeOutput" => some "unsupported"
-    | _ => none
+    match applyOne p [eop, callable, param, new, calls, tops] with
+    | some (some p') => some (showProgram p')
+    | some none => some "unsupported"
+    | none => none
+  | "applyseq", prog :: steps => do
+    -- several operations of one Refactor call = the composition of the single steps
+    let p ← pProgram (prog.splitOn " ") []
+    match applySeq p steps with
+    | some (some p') => some (showProgram p')
+    | some none => some "unsupported"
+    | none => none
   | "thm", [prog, x, y, calls, tops] => do
     -- instances of the property theorems on a concrete program (falsification test)
     let p ← pProgram (prog.splitOn " ") []
